@@ -25,15 +25,15 @@ Definition cext_partitions (fixed : bool) (mounts : bytes) : outcome (list ment)
 
 (* mount table: printed files, model answer of cext.disk_partitions(path), model answer of
    psutil.disk_partitions(all), demanded answer (well-formed entries with a plain device) *)
-Definition run_mounts (fixed all : bool) (fs : list kfs) (es : list ment) : jv :=
+Definition run_mounts (fixed all : bool) (root : option bytes) (fs : list kfs) (es : list ment) : jv :=
   JL [ JB (k_filesystems fs); JB (k_mounts es);
        jv_outcome jv_ments (cext_partitions fixed (k_mounts es));
-       jv_outcome jv_ments (disk_partitions_gen fixed all (k_filesystems fs) (k_mounts es));
-       (if forallb wf_fs fs && forallb wf_ment es && forallb plain_dev es
-        then JC "Val" [jv_ments (spec_partitions all fs es)] else jnone) ].
-Definition run_mounts_raw (fixed all : bool) (filesystems mounts : bytes) : jv :=
+       jv_outcome jv_ments (disk_partitions_gen fixed all root (k_filesystems fs) (k_mounts es));
+       (if forallb wf_fs fs && forallb wf_ment es
+        then JC "Val" [jv_ments (spec_partitions all fs root es)] else jnone) ].
+Definition run_mounts_raw (fixed all : bool) (root : option bytes) (filesystems mounts : bytes) : jv :=
   JL [ jv_outcome jv_ments (cext_partitions fixed mounts);
-       jv_outcome jv_ments (disk_partitions_gen fixed all filesystems mounts) ].
+       jv_outcome jv_ments (disk_partitions_gen fixed all root filesystems mounts) ].
 
 Definition jv_cres (r : cres) : jv :=
   match r with
